@@ -210,6 +210,9 @@ pub fn expect(
     e.body = match &parsed {
         Err(_) => BodyState::Malformed,
         Ok(m) if m.header.qd != 1 || m.opt_count > 1 => BodyState::Malformed,
+        // RFC 6891 6.1.1 / RFC 8945 5.1: OPT and TSIG are additional-section pseudo-records; one that
+        // sits in the answer or authority section makes the message malformed
+        Ok(m) if m.answers.iter().chain(&m.authorities).any(|r| r.rtype == wl::T_OPT || r.rtype == 250) => BodyState::Malformed,
         Ok(_) if pristine => BodyState::WellFormed,
         Ok(_) => BodyState::Unknown,
     };
